@@ -62,8 +62,9 @@ def parse (T : PTables) (fuel : Nat) (latex define : Str) (extract : List Str) :
   modify (fun s => { s with extracted := [], unknowns := [] })
   let main0 ← (if define.isEmpty then pure [] else do
     let t ← parserWork T fuel define
-    modify (fun s => { s with extracted := [] })
     pure (filterSetToks t 0 true))
+  -- text extracted from the definitions is discarded (ghost: the root document starts here)
+  modify (fun s => { s with extracted := [], foreign := false, nest := 0 })
   let body ← parserWork T fuel latex
   let st ← get
   let main := if extract.isEmpty then main0 ++ body else []
